@@ -15,6 +15,8 @@ def run(ctx):
     ctx.proof_side(DIRS, "Properties/C05.v", extra_trusted=[
         "hand-written thread-program model of kvstore/mapdb (mapdb.go, synced_map.go) and kvstore/flushkv (Model.v: compile/step), "
         "tied to the code by the correspondence check only",
+        "re-entrant Iterate consumers are modelled as a list of API calls per callback invocation (CIterRe), executed one after the other "
+        "by the iterating goroutine with no lock held; consumers that block on anything but the store are outside the model",
         "sync.RWMutex modelled as: Lock needs no holder, RLock needs no write holder and no announced waiting writer; "
         "the body of each syncedKVMap method is one atomic step taken while the model thread holds the map lock",
         "Go memory model / data-race freedom is not expressible in the model (race-detector build in the thorough tier only)",
@@ -37,6 +39,8 @@ def run(ctx):
         "atomicity of a batch Commit is per write (as the property says); a Commit or a flushkv call is a sequence of atomic operations sharing the call's interval",
         "a batch object is used by one goroutine (its own mutex is not part of the lock skeleton)",
         "free-running histories cover the interleavings the scheduler produced, not all of them; the theorem covers all schedules of the model",
+        "re-entrant consumer scenarios: the writer is released when the consumer is inside a callback and the consumer re-enters once that writer "
+        "has returned or is parked (runtime.Stack wait state); a scenario that does not finish within 10 s is reported as a hang",
     ]
 
 
